@@ -81,54 +81,76 @@ Lemma Rpow_2 (t : R) : Rpow t 2 = t * t.
 Proof. unfold Rpow. destruct (Req_EM_T 2 2); [reflexivity | lra]. Qed.
 
 (* tan: both branches (|Im z| < 1 and >= 1); the divisors den, sinh(Im z), tanh(Im z)*d are non-zero away from the poles *)
+Lemma tan_algebra (c s ch sh : R) :
+  ch * ch - sh * sh = 1 -> s * s + c * c = 1 -> 0 < ch -> (c * ch, - (s * sh)) <> (0, 0) ->
+  let den := c * c + sh * sh in
+  0 < den /\
+  Cdiv (s * ch, c * sh) (c * ch, - (s * sh)) = (s * c / den, sh * ch / den).
+Proof.
+  intros Hch Hsc Hcp Hc den. pose proof (C_neq0 _ Hc) as Hq. cbn [fst snd] in Hq.
+  assert (Hden : den = c * ch * (c * ch) + - (s * sh) * - (s * sh)) by (unfold den; nra).
+  assert (Hd : 0 < den) by lra. split; [assumption|].
+  unfold Cdiv, Cmult, Cinv. cbn [fst snd].
+  replace ((c * ch) ^ 2 + (- (s * sh)) ^ 2) with den by (rewrite Hden; ring).
+  apply pair_eq.
+  - replace (s * ch * (c * ch / den) - c * sh * (- - (s * sh) / den)) with (s * c * (ch * ch - sh * sh) / den) by (field; lra).
+    rewrite Hch. field; lra.
+  - replace (s * ch * (- - (s * sh) / den) + c * sh * (c * ch / den)) with (sh * ch * (s * s + c * c) / den) by (field; lra).
+    rewrite Hsc. field; lra.
+Qed.
+
 Theorem tan_fb_spec (z : C) : Ccos z <> (0, 0) ->
   cos (fst z) * cos (fst z) + sinh (snd z) * sinh (snd z) <> 0 /\ tan_fb RO RE z = Ctan z.
 Proof.
-  intros Hc. pose proof (C_neq0 _ Hc) as Hq. unfold Ctan. rewrite Csin_parts. rewrite Ccos_parts in *.
+  intros Hc. unfold Ctan. rewrite Csin_parts. rewrite Ccos_parts in *.
   destruct z as [x y]. cbn [fst snd] in *.
   pose proof (cosh2_sinh2 y) as Hch. pose proof (cosh_pos y) as Hcp. pose proof (sin2_cos2 x) as Hsc. unfold Rsqr in Hsc.
-  set (c := cos x) in *. set (s := sin x) in *. set (ch := cosh y) in *. set (sh := sinh y) in *.
-  assert (Hden : c * c + sh * sh = c * ch * (c * ch) + - (s * sh) * - (s * sh)) by nra.
-  assert (Hd : 0 < c * c + sh * sh) by lra.
+  destruct (tan_algebra _ _ _ _ Hch Hsc Hcp Hc) as [Hd ->]. cbv zeta in Hd.
   split; [lra|].
-  unfold tan_fb; fns. cbn [x_pow RE]. rewrite (half_is_2 0). fold c sh.
+  unfold tan_fb; fns. cbn [x_pow RE]. rewrite (half_is_2 0), sin_2a.
+  assert (Hsh : ~ Rabs y < 1 -> sinh y <> 0).
+  { intros Hy. apply sinh_nonzero. intros ->. rewrite Rabs_R0 in Hy. lra. }
+  destruct (Rltb_spec (Rabs y) 1) as [Hy|Hy].
+  - rewrite sinh_2a. apply pair_eq; field; lra.
+  - specialize (Hsh Hy). rewrite Rpow_2. unfold tanh.
+    set (c := cos x) in *. set (sh := sinh y) in *. set (ch := cosh y) in *. clearbody c sh ch.
+    apply pair_eq; [field; lra|]. field. repeat split; (lra || nra).
+Qed.
+
+Lemma tanh_algebra (c s ch sh : R) :
+  ch * ch - sh * sh = 1 -> s * s + c * c = 1 -> 0 < ch -> (ch * c, sh * s) <> (0, 0) ->
+  let den := c * c + sh * sh in
+  0 < den /\
+  Cdiv (sh * c, ch * s) (ch * c, sh * s) = (sh * ch / den, s * c / den).
+Proof.
+  intros Hch Hsc Hcp Hc den. pose proof (C_neq0 _ Hc) as Hq. cbn [fst snd] in Hq.
+  assert (Hden : den = ch * c * (ch * c) + sh * s * (sh * s)) by (unfold den; nra).
+  assert (Hd : 0 < den) by lra. split; [assumption|].
   unfold Cdiv, Cmult, Cinv. cbn [fst snd].
-  replace ((c * ch) ^ 2 + (- (s * sh)) ^ 2) with (c * c + sh * sh) by nra.
-  set (den := c * c + sh * sh) in *. clearbody c s ch sh.
-  assert (Hre : s * ch * (c * ch / den) - c * sh * (- - (s * sh) / den) = s * c / den).
-  { replace (s * ch * (c * ch / den) - c * sh * (- - (s * sh) / den)) with (s * c * (ch * ch - sh * sh) / den) by (field; lra).
-    rewrite Hch. field. lra. }
-  assert (Him : s * ch * (- - (s * sh) / den) + c * sh * (c * ch / den) = sh * ch / den).
-  { replace (s * ch * (- - (s * sh) / den) + c * sh * (c * ch / den)) with (sh * ch * (s * s + c * c) / den) by (field; lra).
-    rewrite Hsc. field. lra. }
-  rewrite Hre, Him.
-  destruct (Rltb_spec (Rabs y) 1).
-  - subst sh0 ch0. rewrite sinh_2a. fold sh ch. apply pair_eq; field; lra.
-  - assert (Hy : y <> 0) by (intros ->; rewrite Rabs_R0 in *; lra).
-    pose proof (sinh_nonzero y Hy) as Hsh. fold sh in Hsh.
-    rewrite Rpow_2. unfold tanh. fold sh ch. apply pair_eq; [field; lra|].
-    unfold den. field. repeat split; try lra. fold den. lra.
+  replace ((ch * c) ^ 2 + (sh * s) ^ 2) with den by (rewrite Hden; ring).
+  apply pair_eq.
+  - replace (sh * c * (ch * c / den) - ch * s * (- (sh * s) / den)) with (sh * ch * (s * s + c * c) / den) by (field; lra).
+    rewrite Hsc. field; lra.
+  - replace (sh * c * (- (sh * s) / den) + ch * s * (ch * c / den)) with (s * c * (ch * ch - sh * sh) / den) by (field; lra).
+    rewrite Hch. field; lra.
 Qed.
 
 Theorem tanh_fb_spec (z : C) : Ccosh z <> (0, 0) ->
   cos (snd z) * cos (snd z) + sinh (fst z) * sinh (fst z) <> 0 /\ tanh_fb RO RE z = Ctanh z.
 Proof.
-  intros Hc. pose proof (C_neq0 _ Hc) as Hq. unfold Ctanh. rewrite Csinh_parts. rewrite Ccosh_parts in *.
+  intros Hc. unfold Ctanh. rewrite Csinh_parts. rewrite Ccosh_parts in *.
   destruct z as [x y]. cbn [fst snd] in *.
   pose proof (cosh2_sinh2 x) as Hch. pose proof (cosh_pos x) as Hcp. pose proof (sin2_cos2 y) as Hsc. unfold Rsqr in Hsc.
-  set (c := cos y) in *. set (s := sin y) in *. set (ch := cosh x) in *. set (sh := sinh x) in *.
-  assert (Hden : c * c + sh * sh = ch * c * (ch * c) + sh * s * (sh * s)) by nra.
-  assert (Hd : 0 < c * c + sh * sh) by lra.
+  destruct (tanh_algebra _ _ _ _ Hch Hsc Hcp Hc) as [Hd ->]. cbv zeta in Hd.
   split; [lra|].
-  unfold tanh_fb; fns. cbn [x_pow RE]. rewrite (half_is_2 0). fold c sh.
-  unfold Cdiv, Cmult, Cinv. cbn [fst snd].
-  replace ((ch * c) ^ 2 + (sh * s) ^ 2) with (c * c + sh * sh) by nra.
-  destruct (Rltb_spec (Rabs x) 1).
-  - rewrite sin_2a. fold c s ch sh. apply pair_eq; field; lra.
-  - assert (Hx : x <> 0) by (intros ->; rewrite Rabs_R0 in *; lra).
-    pose proof (sinh_nonzero x Hx) as Hsh. fold sh in Hsh.
-    rewrite sin_2a, Rpow_2. unfold tanh. fold c s ch sh. apply pair_eq; field; try lra.
-    repeat split; try lra. nra.
+  unfold tanh_fb; fns. cbn [x_pow RE]. rewrite (half_is_2 0), sin_2a.
+  assert (Hsh : ~ Rabs x < 1 -> sinh x <> 0).
+  { intros Hx. apply sinh_nonzero. intros ->. rewrite Rabs_R0 in Hx. lra. }
+  destruct (Rltb_spec (Rabs x) 1) as [Hx|Hx].
+  - apply pair_eq; field; lra.
+  - specialize (Hsh Hx). rewrite Rpow_2. unfold tanh.
+    set (c := cos y) in *. set (sh := sinh x) in *. set (ch := cosh x) in *. clearbody c sh ch.
+    apply pair_eq; [|field; lra]. field. repeat split; (lra || nra).
 Qed.
 
 (* reciprocal families: for EVERY binding of the six functions, sec = 1/cos etc. (the divisor |w| is non-zero) *)
